@@ -68,7 +68,7 @@ fn items_of(cs: &CallSet) -> Vec<Item> {
     cs.recs
         .iter()
         .map(|r| Item::Rec {
-            contig: format!("chr{}", r.contig + 1),
+            contig: cs.contig_name(r.contig),
             pos: r.pos as usize,
             g: r.gts.iter().map(|g| if r.no_gt { G_MISSING } else { gt_to_g(g) }).collect(),
         })
@@ -76,7 +76,7 @@ fn items_of(cs: &CallSet) -> Vec<Item> {
 }
 
 fn site_name(cs: &CallSet, i: usize) -> String {
-    format!("chr{}:{}", cs.recs[i].contig + 1, cs.recs[i].pos)
+    format!("{}:{}", cs.contig_name(cs.recs[i].contig), cs.recs[i].pos)
 }
 
 fn selected(cs: &CallSet, cfg: &Config) -> (Vec<usize>, Vec<usize>) {
@@ -92,11 +92,11 @@ fn inject_l1(cs: &CallSet, cfg: &Config, items: &mut Vec<Item>, fault: Fault, i:
     match fault {
         Fault::None => Some(()),
         Fault::SourceError => {
-            let pos = items.iter().position(|it| matches!(it, Item::Rec { pos, contig, .. } if *pos == cs.recs[i].pos as usize && *contig == format!("chr{}", cs.recs[i].contig + 1)))?;
+            let pos = items.iter().position(|it| matches!(it, Item::Rec { pos, contig, .. } if *pos == cs.recs[i].pos as usize && *contig == cs.contig_name(cs.recs[i].contig)))?;
             items.insert(
                 pos,
                 Item::SourceError {
-                    contig: format!("chr{}", cs.recs[i].contig + 1),
+                    contig: cs.contig_name(cs.recs[i].contig),
                     pos: cs.recs[i].pos as usize,
                     kind: (i % 5) as u8,
                 },
@@ -108,7 +108,7 @@ fn inject_l1(cs: &CallSet, cfg: &Config, items: &mut Vec<Item>, fault: Fault, i:
                 Fault::PloidyUnselected => *unsel.get(i % unsel.len().max(1))?,
                 _ => *sel.get(i % sel.len().max(1))?,
             };
-            let site = (format!("chr{}", cs.recs[i].contig + 1), cs.recs[i].pos as usize);
+            let site = (cs.contig_name(cs.recs[i].contig), cs.recs[i].pos as usize);
             for it in items.iter_mut() {
                 if let Item::Rec { contig, pos, g } = it {
                     if *contig == site.0 && *pos == site.1 {
@@ -592,12 +592,14 @@ fn build_l2_input(case: &Case, i: usize) -> Option<(Vec<u8>, Option<Plan>)> {
             blocks,
             eof_marker: true,
             level: 6,
+        bcf_minor: 0,
         }
     };
     let default_layout = Layout {
         blocks: vec![],
         eof_marker: true,
         level: 6,
+    bcf_minor: 0,
     };
     match case.fault {
         Fault::BcfRecordCut => {
@@ -636,6 +638,7 @@ fn build_l2_input(case: &Case, i: usize) -> Option<(Vec<u8>, Option<Plan>)> {
                         blocks,
                         eof_marker: true,
                         level: 6,
+                    bcf_minor: 0,
                     },
                 )
             };
